@@ -22,7 +22,8 @@ commands are one `LockMulti` block over destination and sources (after a `CheckT
 (option / integer / float syntax: `SET k v EX x`, `INCRBY k x`, `LMOVE a b UP DOWN`, …): such a call locks nothing either.  These
 depend on `strconv.ParseFloat` (`env.fl`) and, for the `now + seconds` range tests, on the clock — so `lockPlan` takes the
 environment; it is always either `footprint args` or `none` (`lockPlan_cases`).  The theorems (`Props/C05Foot*.lean`) are stated for
-`footprint` (the larger one); the driver compares the Go lock trace of every command with `lockPlan`.
+`footprint` (the larger one) AND for `lockPlan` (`Foot.exec_lockPlan`: a refused call does not consult the keyspace, `Foot.table_refuse`);
+the driver compares the Go lock trace of every command with `lockPlan`.
 
 ### Exceptions accepted by the tie (`Driver/Exec.lean` `checkFootprint`), each with its reason
 * **mode**: a read footprint whose Go executor takes the WRITE lock — `zrange`, `zrank`, `xrange` (`Lock` instead of `RLock`;
@@ -101,69 +102,15 @@ def fpXAdd : FP := fun args =>
 
 def fpNone : FP := fun _ => .none
 
-/-! ### the table: command, model executor, footprint — same names, same order as `cmdTable` (`footTable_cmds`) -/
-
-def footTable : List (String × Cmd × FP) := [
-  ("set", cmdSet, fpKge3 true), ("get", cmdGet, fpK2 false), ("getrange", cmdGetRange, fpK4 false),
-  ("setrange", cmdSetRange, fpK4 true), ("mget", cmdMGet, fpAll false), ("mset", cmdMSet, fpMSet),
-  ("setex", cmdSetEx, fpK4 true), ("setnx", cmdSetNx, fpK3 true), ("strlen", cmdStrLen, fpK2 false), ("incr", cmdIncr, fpK2 true),
-  ("incrby", cmdIncrBy, fpK3 true), ("decr", cmdDecr, fpK2 true),
-  ("decrby", cmdDecrBy, fpK3 true), ("incrbyfloat", cmdIncrByFloat, fpK3 true), ("append", cmdAppend, fpK3 true),
-  ("ping", cmdPing, fpNone), ("del", cmdDel, fpAll true), ("exists", cmdExists, fpAll false), ("keys", cmdKeys, fpKeys),
-  ("expire", cmdExpire, fpExpire), ("persist", cmdPersist, fpK2 true),
-  ("ttl", cmdTTL, fpK2 false), ("type", cmdType, fpK2 false), ("rename", cmdRename, fpRename),
-  -- misc
-  ("publish", cmdPublishNoSubs, fpNone), ("member", cmdMemberStandalone, fpNone), ("rconf", cmdRconfStandalone, fpNone),
-  -- sets
-  ("sadd", cmdSAdd, fpKge3 true), ("srem", cmdSRem, fpKge3 true), ("sismember", cmdSIsMember, fpK3 false), ("scard", cmdSCard, fpK2 false),
-  ("smembers", cmdSMembers, fpK2 false),
-  ("smove", cmdSMove, fpSMove), ("spop", cmdSPop, fpK2or3 true), ("srandmember", cmdSRandMember, fpK2or3 false),
-  ("sunion", cmdSUnion, fpAll false), ("sinter", cmdSInter, fpAll false), ("sdiff", cmdSDiff, fpAll false),
-  ("sunionstore", cmdSUnionStore, fpStore), ("sinterstore", cmdSInterStore, fpStore), ("sdiffstore", cmdSDiffStore, fpStore),
-  -- hashes
-  ("hset", cmdHSet, fpHSet), ("hsetnx", cmdHSetNx, fpK4 true), ("hget", cmdHGet, fpK3 false), ("hmget", cmdHMGet, fpKge3 false),
-  ("hgetall", cmdHGetAll, fpK2 false), ("hkeys", cmdHKeys, fpK2 false),
-  ("hvals", cmdHVals, fpK2 false), ("hlen", cmdHLen, fpK2 false), ("hexists", cmdHExists, fpK3 false), ("hstrlen", cmdHStrLen, fpK3 false),
-  ("hdel", cmdHDel, fpKge3 true),
-  ("hincrby", cmdHIncrBy, fpK4 true), ("hincrbyfloat", cmdHIncrByFloat, fpK4 true), ("hrandfield", cmdHRandField, fpK2to4 false),
-  -- lists
-  ("llen", cmdLLen, fpK2 false), ("lindex", cmdLIndex, fpK3 false), ("lpos", cmdLPos, fpKge3 false), ("lpop", cmdLPop, fpK2or3 true),
-  ("rpop", cmdRPop, fpK2or3 true), ("lpush", cmdLPush, fpKge3 true),
-  ("lpushx", cmdLPushX, fpKge3 true), ("rpush", cmdRPush, fpKge3 true), ("rpushx", cmdRPushX, fpKge3 true), ("lset", cmdLSet, fpK4 true),
-  ("lrem", cmdLRem, fpK4 true), ("ltrim", cmdLTrim, fpK4 true),
-  ("lrange", cmdLRange, fpK4 false), ("lmove", cmdLMove, fpLMove), ("blpop", cmdBLPop, fpBPop), ("brpop", cmdBRPop, fpBPop),
-  -- sorted sets
-  ("zadd", cmdZAdd, fpKge4 true), ("zrem", cmdZRem, fpKge3 true), ("zrange", cmdZRange, fpKge4 false), ("zrank", cmdZRank, fpK3 false),
-  -- streams
-  ("xadd", cmdXAdd, fpXAdd), ("xrange", cmdXRange, fpKge4 false)]
-
-/-- the footprint table is the command table with one more column -/
-theorem footTable_cmds : footTable.map (fun x => (x.1, x.2.1)) = cmdTable := rfl
-
-def lookupFoot (name : Bytes) : Option (Cmd × FP) :=
-  (footTable.find? fun p => ofStr p.1 == name).map (·.2)
-
-/-- **the footprint of an argument vector** (same dispatch as `Exec.exec`: lower-cased name, table lookup) -/
-def footprint (args : List Bytes) : Footprint :=
-  match args with
-  | [] => .none
-  | name :: _ =>
-    match lookupFoot (lower name) with
-    | some p => p.2 args
-    | none => .none
-
-/-- commands whose footprint is the union of several successive lock scopes of the Go executor (one block per key) -/
-def multiBlock : List String := ["del", "exists", "mget", "blpop", "brpop"]
-
-/-- commands that may stop before they have visited all their keys: the locked stripes are those of a prefix of the footprint -/
-def lockedPrefix : List String := ["blpop", "brpop"]
-
 /-! ### refusals between the arity test and the first lock (`lockPlan`)
 
 Each predicate repeats the argument parsing of the model executor up to its first `checkTTL` — which repeats the Go executor's
 parsing up to its first `CheckTTL`/`Lock`.  `true` = the call is answered with an error and nothing is locked. -/
 
 abbrev Refusal := Env → List Bytes → Bool
+
+/-- no refusal between the arity test and the first lock -/
+def rfNever : Refusal := fun _ _ => false
 
 def rfSet : Refusal := fun env args =>
   match args with
@@ -270,20 +217,70 @@ def rfXRange : Refusal := fun _ args =>
     | _, _ => true
   | _ => false
 
-def refusalTable : List (String × Refusal) := [
-  ("set", rfSet), ("setrange", rfSetRange), ("setex", rfSetEx), ("incrby", rfInt2), ("decrby", rfDecrBy), ("incrbyfloat", rfIncrByFloat),
-  ("expire", rfExpire), ("spop", rfCountNat), ("srandmember", rfSRandMember), ("hincrby", rfInt3), ("hincrbyfloat", rfHIncrByFloat),
-  ("hrandfield", rfHRandField), ("lindex", rfInt2), ("lpos", rfLPos), ("lpop", rfCountNat), ("rpop", rfCountNat), ("lset", rfInt2),
-  ("lrem", rfInt2), ("ltrim", rfInt23), ("lrange", rfInt23), ("lmove", rfLMove), ("blpop", rfBPop), ("brpop", rfBPop),
-  ("zadd", rfZAdd), ("zrange", rfZRange), ("xadd", rfXAdd), ("xrange", rfXRange)]
+/-! ### the table: command, model executor, footprint, refusal — same names, same order as `cmdTable` (`footTable_cmds`) -/
 
-/-- refused after the arity test, before any lock -/
+def footTable : List (String × Cmd × FP × Refusal) := [
+  ("set", cmdSet, fpKge3 true, rfSet), ("get", cmdGet, fpK2 false, rfNever), ("getrange", cmdGetRange, fpK4 false, rfNever),
+  ("setrange", cmdSetRange, fpK4 true, rfSetRange), ("mget", cmdMGet, fpAll false, rfNever), ("mset", cmdMSet, fpMSet, rfNever),
+  ("setex", cmdSetEx, fpK4 true, rfSetEx), ("setnx", cmdSetNx, fpK3 true, rfNever), ("strlen", cmdStrLen, fpK2 false, rfNever), ("incr", cmdIncr, fpK2 true, rfNever),
+  ("incrby", cmdIncrBy, fpK3 true, rfInt2), ("decr", cmdDecr, fpK2 true, rfNever),
+  ("decrby", cmdDecrBy, fpK3 true, rfDecrBy), ("incrbyfloat", cmdIncrByFloat, fpK3 true, rfIncrByFloat), ("append", cmdAppend, fpK3 true, rfNever),
+  ("ping", cmdPing, fpNone, rfNever), ("del", cmdDel, fpAll true, rfNever), ("exists", cmdExists, fpAll false, rfNever), ("keys", cmdKeys, fpKeys, rfNever),
+  ("expire", cmdExpire, fpExpire, rfExpire), ("persist", cmdPersist, fpK2 true, rfNever),
+  ("ttl", cmdTTL, fpK2 false, rfNever), ("type", cmdType, fpK2 false, rfNever), ("rename", cmdRename, fpRename, rfNever),
+  -- misc
+  ("publish", cmdPublishNoSubs, fpNone, rfNever), ("member", cmdMemberStandalone, fpNone, rfNever), ("rconf", cmdRconfStandalone, fpNone, rfNever),
+  -- sets
+  ("sadd", cmdSAdd, fpKge3 true, rfNever), ("srem", cmdSRem, fpKge3 true, rfNever), ("sismember", cmdSIsMember, fpK3 false, rfNever), ("scard", cmdSCard, fpK2 false, rfNever),
+  ("smembers", cmdSMembers, fpK2 false, rfNever),
+  ("smove", cmdSMove, fpSMove, rfNever), ("spop", cmdSPop, fpK2or3 true, rfCountNat), ("srandmember", cmdSRandMember, fpK2or3 false, rfSRandMember),
+  ("sunion", cmdSUnion, fpAll false, rfNever), ("sinter", cmdSInter, fpAll false, rfNever), ("sdiff", cmdSDiff, fpAll false, rfNever),
+  ("sunionstore", cmdSUnionStore, fpStore, rfNever), ("sinterstore", cmdSInterStore, fpStore, rfNever), ("sdiffstore", cmdSDiffStore, fpStore, rfNever),
+  -- hashes
+  ("hset", cmdHSet, fpHSet, rfNever), ("hsetnx", cmdHSetNx, fpK4 true, rfNever), ("hget", cmdHGet, fpK3 false, rfNever), ("hmget", cmdHMGet, fpKge3 false, rfNever),
+  ("hgetall", cmdHGetAll, fpK2 false, rfNever), ("hkeys", cmdHKeys, fpK2 false, rfNever),
+  ("hvals", cmdHVals, fpK2 false, rfNever), ("hlen", cmdHLen, fpK2 false, rfNever), ("hexists", cmdHExists, fpK3 false, rfNever), ("hstrlen", cmdHStrLen, fpK3 false, rfNever),
+  ("hdel", cmdHDel, fpKge3 true, rfNever),
+  ("hincrby", cmdHIncrBy, fpK4 true, rfInt3), ("hincrbyfloat", cmdHIncrByFloat, fpK4 true, rfHIncrByFloat), ("hrandfield", cmdHRandField, fpK2to4 false, rfHRandField),
+  -- lists
+  ("llen", cmdLLen, fpK2 false, rfNever), ("lindex", cmdLIndex, fpK3 false, rfInt2), ("lpos", cmdLPos, fpKge3 false, rfLPos), ("lpop", cmdLPop, fpK2or3 true, rfCountNat),
+  ("rpop", cmdRPop, fpK2or3 true, rfCountNat), ("lpush", cmdLPush, fpKge3 true, rfNever),
+  ("lpushx", cmdLPushX, fpKge3 true, rfNever), ("rpush", cmdRPush, fpKge3 true, rfNever), ("rpushx", cmdRPushX, fpKge3 true, rfNever), ("lset", cmdLSet, fpK4 true, rfInt2),
+  ("lrem", cmdLRem, fpK4 true, rfInt2), ("ltrim", cmdLTrim, fpK4 true, rfInt23),
+  ("lrange", cmdLRange, fpK4 false, rfInt23), ("lmove", cmdLMove, fpLMove, rfLMove), ("blpop", cmdBLPop, fpBPop, rfBPop), ("brpop", cmdBRPop, fpBPop, rfBPop),
+  -- sorted sets
+  ("zadd", cmdZAdd, fpKge4 true, rfZAdd), ("zrem", cmdZRem, fpKge3 true, rfNever), ("zrange", cmdZRange, fpKge4 false, rfZRange), ("zrank", cmdZRank, fpK3 false, rfNever),
+  -- streams
+  ("xadd", cmdXAdd, fpXAdd, rfXAdd), ("xrange", cmdXRange, fpKge4 false, rfXRange)]
+
+/-- the footprint table is the command table with one more column -/
+theorem footTable_cmds : footTable.map (fun x => (x.1, x.2.1)) = cmdTable := rfl
+
+def lookupFoot (name : Bytes) : Option (Cmd × FP × Refusal) :=
+  (footTable.find? fun p => ofStr p.1 == name).map (·.2)
+
+/-- **the footprint of an argument vector** (same dispatch as `Exec.exec`: lower-cased name, table lookup) -/
+def footprint (args : List Bytes) : Footprint :=
+  match args with
+  | [] => .none
+  | name :: _ =>
+    match lookupFoot (lower name) with
+    | some p => p.2.1 args
+    | none => .none
+
+/-- commands whose footprint is the union of several successive lock scopes of the Go executor (one block per key) -/
+def multiBlock : List String := ["del", "exists", "mget", "blpop", "brpop"]
+
+/-- commands that may stop before they have visited all their keys: the locked stripes are those of a prefix of the footprint -/
+def lockedPrefix : List String := ["blpop", "brpop"]
+
+/-- refused after the arity test, before any lock (same dispatch as `Exec.exec` and `footprint`) -/
 def refused (env : Env) (args : List Bytes) : Bool :=
   match args with
   | [] => false
   | name :: _ =>
-    match refusalTable.find? fun p => ofStr p.1 == lower name with
-    | some p => p.2 env args
+    match lookupFoot (lower name) with
+    | some p => p.2.2 env args
     | none => false
 
 /-- **what the Go executor locks for this call**: the footprint, or nothing when the call is refused before the first lock -/
